@@ -683,11 +683,16 @@ CmpParsedDur(p, r, tag) ==
 \* where the fraction stands: a fraction of SECONDS with up to six digits is a plain microsecond count
 FracClass(r) == CASE r.fracrank = 0 -> "none"
                   [] r.fracrank = 7 -> (IF r.fraclen <= 6 THEN "sec-1-6" ELSE "sec-7+")
-                  [] r.fracrank = 6 -> "min" [] r.fracrank = 5 -> "hour" [] r.fracrank = 4 -> "day" [] r.fracrank = 3 -> "week"
+                  \* (one digit on minutes, hours or days is exact in both parsers: tenths divide those units evenly)
+                  [] r.fracrank = 6 -> (IF r.fraclen = 1 THEN "min-tenth" ELSE "min")
+                  [] r.fracrank = 5 -> (IF r.fraclen = 1 THEN "hour-tenth" ELSE "hour")
+                  [] r.fracrank = 4 -> (IF r.fraclen = 1 THEN "day-tenth" ELSE "day") [] r.fracrank = 3 -> "week"
 J_dur_parse(e) ==
   LET r == RecDuration(e.a.text)  p == e.post IN
   IF ~r.ok
-  THEN R(<<"ill-formed", e.a.cls>>,
+  THEN R(<<"ill-formed", e.a.cls, "zero-component",
+           \* some component is the number 0 (the compiled parser remembers the designators it has seen by their values)
+           B(\E i \in 1..(Len(e.a.text) - 1) : e.a.text[i] = 48 /\ (i = 1 \/ ~IsDigit(e.a.text[i - 1])) /\ e.a.text[i + 1] \in Designators)>>,
          IF e.a.cls \in {"out-of-order", "frac-year", "frac-month"}
          THEN V("top-must-reject", p.top.k = "exc", e.a.cls) \o V("py-must-reject", p.py.k = "exc", e.a.cls)
               \o V("rs-must-reject", p.rs.k = "exc", e.a.cls)
